@@ -264,17 +264,20 @@ Section OverlayNP.
     destruct ex; [constructor; exact Hl|exact IH].
   Qed.
 
+  Lemma np_lower : Forall (fun l => forall c, NP (v_impl (fst l) c)) lower.
+  Proof. now inversion Hall. Qed.
+
   Lemma np_read_path p : leaves NPb np_lp (read_path top lower p).
   Proof.
     unfold read_path. destruct p as [|x p']; [constructor; exact np_top|]. set (p := x :: p').
     eapply leaves_bind; [exact (np_exists (fst top) np_top _)|].
-    intros [wo|e|] Hnp; [|constructor; exact I|destruct Hnp].
-    destruct wo; [constructor; exact I|].
-    eapply leaves_bind; [apply np_first_layer, Hall|].
-    intros [[lp|]|e|] Hl; [constructor; exact Hl| |constructor; exact I|destruct Hl].
+    intros [up|e|] Hnp; [|constructor; exact I|destruct Hnp].
+    destruct up; [constructor; exact np_top|].
     eapply leaves_bind; [exact (np_exists (fst top) np_top _)|].
-    intros [ex|e|] Hnp2; [|constructor; exact I|destruct Hnp2].
-    destruct ex; constructor; [exact np_top|exact I].
+    intros [wo|e|] Hnp2; [|constructor; exact I|destruct Hnp2].
+    destruct wo; [constructor; exact I|].
+    eapply leaves_bind; [apply np_first_layer, np_lower|].
+    intros [[lp|]|e|] Hl; [constructor; exact Hl|constructor; exact I|constructor; exact I|destruct Hl].
   Qed.
 
   (** continue with the layer that serves the path *)
@@ -287,7 +290,7 @@ Section OverlayNP.
 
   Lemma np_ovl_exists p : NP (ovl_exists top lower p).
   Proof.
-    unfold ovl_exists. np_step; [exact (np_exists (fst top) np_top _)|]. np_step; [np_auto|].
+    unfold ovl_exists.
     eapply leaves_bind; [apply np_read_path|].
     intros [lp|e|] Hl; [exact (np_exists (fst lp) Hl _)| |destruct Hl].
     destruct (e_kind e); constructor; exact I.
